@@ -195,6 +195,41 @@ Proof.
   - intro H. inversion H. auto.
 Qed.
 
+
+(* ---- instances for the two maps ------------------------------------------------ *)
+Definition k_get_del_other {V} := @al_get_del_other key V key_eqb key_eqb_spec.
+Definition k_get_set_same {V} := @al_get_set_same key V key_eqb key_eqb_spec.
+Definition k_get_set_other {V} := @al_get_set_other key V key_eqb key_eqb_spec.
+Definition k_get_none_iff {V} := @al_get_none_iff key V key_eqb key_eqb_spec.
+Definition k_get_some_in {V} := @al_get_some_in key V key_eqb key_eqb_spec.
+Definition k_get_some_key {V} := @al_get_some_key key V key_eqb key_eqb_spec.
+Definition k_in_get {V} := @al_in_get key V key_eqb key_eqb_spec.
+Definition k_keys_del {V} := @al_keys_del key V key_eqb key_eqb_spec.
+Definition k_del_nodup {V} := @al_del_nodup key V key_eqb key_eqb_spec.
+Definition k_set_nodup {V} := @al_set_nodup key V key_eqb key_eqb_spec.
+Definition k_keys_set {V} := @al_keys_set key V key_eqb key_eqb_spec.
+Definition k_del_length {V} := @al_del_length key V key_eqb key_eqb_spec.
+Definition k_get_filter {V} := @al_get_filter key V key_eqb key_eqb_spec.
+Definition k_get_del_same {V} := @al_get_del_same key V key_eqb.
+Definition k_del_notin {V} := @al_del_notin key V key_eqb.
+Definition k_del_length_le {V} := @al_del_length_le key V key_eqb.
+Definition s_get_del_other {V} := @al_get_del_other skey V skey_eqb skey_eqb_spec.
+Definition s_get_set_same {V} := @al_get_set_same skey V skey_eqb skey_eqb_spec.
+Definition s_get_set_other {V} := @al_get_set_other skey V skey_eqb skey_eqb_spec.
+Definition s_get_none_iff {V} := @al_get_none_iff skey V skey_eqb skey_eqb_spec.
+Definition s_get_some_in {V} := @al_get_some_in skey V skey_eqb skey_eqb_spec.
+Definition s_get_some_key {V} := @al_get_some_key skey V skey_eqb skey_eqb_spec.
+Definition s_in_get {V} := @al_in_get skey V skey_eqb skey_eqb_spec.
+Definition s_keys_del {V} := @al_keys_del skey V skey_eqb skey_eqb_spec.
+Definition s_del_nodup {V} := @al_del_nodup skey V skey_eqb skey_eqb_spec.
+Definition s_set_nodup {V} := @al_set_nodup skey V skey_eqb skey_eqb_spec.
+Definition s_keys_set {V} := @al_keys_set skey V skey_eqb skey_eqb_spec.
+Definition s_del_length {V} := @al_del_length skey V skey_eqb skey_eqb_spec.
+Definition s_get_filter {V} := @al_get_filter skey V skey_eqb skey_eqb_spec.
+Definition s_get_del_same {V} := @al_get_del_same skey V skey_eqb.
+Definition s_del_notin {V} := @al_del_notin skey V skey_eqb.
+Definition s_del_length_le {V} := @al_del_length_le skey V skey_eqb.
+
 Lemma nodup_same_length {A} (l1 l2 : list A) :
   NoDup l1 -> NoDup l2 -> (forall x, In x l1 <-> In x l2) -> length l1 = length l2.
 Proof.
